@@ -437,6 +437,13 @@ def parse_mir(text):
                             buf += " " + lines[i].strip()
                         fn.raw_blocks[cur].append(buf)
                 i += 1
-            fns.setdefault(name, fn)
+            if name in fns:
+                # macro-generated items share one span: keep every instance under a numbered key
+                k = 2
+                while "%s#%d" % (name, k) in fns:
+                    k += 1
+                name = "%s#%d" % (name, k)
+                fn.name = name
+            fns[name] = fn
         i += 1
     return fns
